@@ -1,4 +1,5 @@
 import GoSSE.Proofs.SessionServer
+import GoSSE.Proofs.GenEquivSession
 /-!
 # C16 — Session and Server keep the HTTP side of the protocol
 
@@ -305,5 +306,39 @@ theorem served_spec_holds (sched : Sched) (shape : Shape) (h : Header) (onSessio
         | some t =>
           cases htp : b.topics <;>
             simp [getSubscription, hok, hp, htp, lastEventIDOf_eq, hsess, expectedTopics, defaultTopicSlice, defaultTopic, h500]
+
+/-! ### The translated source text (regenerated from /repo's session.go and message.go on every run) -/
+
+/-- **`Session.Send`, `Session.Flush` and `Session.doUpgrade` as translated from session.go** — `Send` through the
+translated `Message.WriteTo` with every `if err != nil { return }` of message.go — over the recording response writer
+with *any* fault schedule (`GenEquiv.resOf`: the writer the theorems above quantify over, as a response writer of the
+translated code: a state (calls so far, events so far), `Write`, `Flush`, `Header()[k] = v`): **for every sequence of
+`Send` / `Flush` calls** with any messages (built values with a `time.Duration` retry), starting from any session
+state, call counter and log, the translated code returns call by call what `runOps` returns, makes exactly the writer
+calls `runOps` logs, and leaves `runOps`' session; it does not panic. The theorems above (`session_spec_holds` and its
+parts) are therefore statements about the source text of session.go. -/
+theorem translated_session_is_model (fuel : Nat) (sched : Sched) (ops : List GenEquiv.GOp) (s : Session) (c : Nat) (log : List Ev)
+    (lid : Gen.EventID) (hf : 13 < fuel) (hok : ∀ op ∈ ops, op.Ok fuel) :
+    GenEquiv.genRun fuel (GenEquiv.toGenS sched s (c, log) lid) ops =
+      .ok ((runOps sched s c (ops.map GenEquiv.GOp.toOp)).obs.map (fun e => e.ret.map GenEquiv.errS),
+           GenEquiv.toGenS sched (runOps sched s c (ops.map GenEquiv.GOp.toOp)).s
+             ((runOps sched s c (ops.map GenEquiv.GOp.toOp)).calls,
+              log ++ trace (runOps sched s c (ops.map GenEquiv.GOp.toOp)).obs) lid) :=
+  GenEquiv.genRun_eq fuel sched ops s c log lid hf hok
+
+/-- The session model's own small message encoding (`encodeWrites`, what `body_is_concat_of_encodings` speaks of) is
+the message model's list of `Write` calls (`Message.writes`, what C02/C15 are stated over and the translated
+`WriteTo` is proved to make): the two hand-written models agree for every message. -/
+theorem session_encoding_is_message_encoding (m : GoSSE.Model.Message) (hm : m.retry ≤ (maxInt64 : Int)) :
+    encodeWrites (GoSSE.Proofs.msgOf m) = m.writes :=
+  GoSSE.Proofs.encodeWrites_msgOf m hm
+
+/-- non-vacuity: a fresh session, a failing first flush, then a successful `Send` of `id: 7` + `data: x` and a `Flush` -/
+example :
+    (GenEquiv.genRun 20 (GenEquiv.toGenS (fun c => if c = 0 then some 0 else none) ⟨⟨0, .flushError⟩, false⟩ (0, []) default)
+      [.send { chunks := [{ content := [120], isComment := false }], id := { value := [55], set := true } }, .flush,
+       .send { chunks := [{ content := [120], isComment := false }], id := { value := [55], set := true } }]).map (·.1) =
+    .ok [some "0", none, none] := by
+  rfl
 
 end GoSSE.Props.C16
